@@ -235,7 +235,10 @@ def _dict_to_element(d):
 
     elif d_type in ["check"]:
         element = {"_type": "check", "expression": d_value}
-    elif d_type in ["pass", "continue"]:
+    elif d_type in ["pass"]:
+        # A statement that does nothing, also inside a loop
+        element = {"_type": "jump", "_next": 1}
+    elif d_type in ["continue"]:
         element = {"_type": "continue"}
     elif d_type in ["stop", "abort"]:
         element = {"_type": "stop"}
